@@ -9,6 +9,7 @@ One JSON request on stdin, one JSON line on stdout.  Sections of the request (al
   config  -> Config / Simulator code emission
 """
 import ast
+import random
 import inspect
 import json
 import sys
@@ -387,7 +388,7 @@ def run_rt(case):
             d = diff_programs(p, ns["program"])
             if d is None:
                 s2 = ns["simulator"]
-                if type(s2) is not type(sim) or s2.d != sim.d or not (s2.config == sim.config):
+                if sim_attrs(s2) != sim_attrs(sim):
                     d = {"what": "simulator differs", "expected": sim._as_code(), "got": s2._as_code()}
                 elif last != "result = simulator.execute(program, shots=%d)" % case.get("shots", 1):
                     d = {"what": "shots", "got": last}
@@ -443,6 +444,120 @@ def cfg_value(k, v):
     return v
 
 
+def cfg_attrs(c):
+    """Attribute-by-attribute snapshot of a Config; never uses Config.__eq__ (which is itself
+    under test).  Covers every constructor parameter and every other instance attribute except
+    the generator objects and the effective seed (random when none was given)."""
+    out = {}
+    for n in inspect.signature(pq.Config).parameters:
+        v = c._original_seed_sequence if n == "seed_sequence" else getattr(c, n)
+        out[n] = v.__name__ if isinstance(v, type) else norm(enc(v))
+    for n, v in vars(c).items():
+        if n == "_seed_sequence" or n in out or isinstance(v, (np.random.Generator, random.Random)):
+            continue
+        out[n] = v.__name__ if isinstance(v, type) else norm(enc(v))
+    return out
+
+
+def sim_attrs(s):
+    return {"cls": type(s).__name__, "d": s.d, "config": cfg_attrs(s.config)}
+
+
+SWEEP_VALUES = {
+    "cutoff": [4, 7, 1],
+    "dtype": [np.float32, float, np.float64],
+    "measurement_cutoff": [3, 9],
+    "hbar": [1.0, 1.5, 2],
+    "seed_sequence": [0, 1, 2 ** 70 + 3],
+    "use_torontonian": [True],
+    "cache_size": [0, 64],
+    "validate": [False],
+    "use_dask": [True],
+    "max_sample_generation_trials": [1, 7, 5000],
+}
+
+
+def sweep_values(name, default):
+    if name in SWEEP_VALUES:
+        return SWEEP_VALUES[name]
+    if isinstance(default, bool):
+        return [not default]
+    if isinstance(default, int):
+        return [default + 1, 0]
+    if isinstance(default, float):
+        return [default * 1.5 + 0.25]
+    return None
+
+
+def run_config_sweep():
+    """For EVERY Config field: configurations whose sole explicit entry is that field, through
+    __eq__, copy, _as_code + eval, Simulator._as_code + eval and pq.as_code + exec; all
+    comparisons attribute by attribute."""
+    out = []
+    default = pq.Config()
+    dattrs = cfg_attrs(default)
+    for name, p in inspect.signature(pq.Config).parameters.items():
+        vals = sweep_values(name, p.default)
+        if vals is None:
+            out.append({"field": name, "value": None, "problems": ["no candidate values for a field of this type (extend SWEEP_VALUES)"]})
+            continue
+        for v in vals:
+            rec = {"field": name, "value": v.__name__ if isinstance(v, type) else repr(v), "problems": []}
+            pr = rec["problems"]
+            try:
+                c = pq.Config(**{name: v})
+                a = cfg_attrs(c)
+                differs = a != dattrs
+                rec["differs_from_default"] = differs
+                if bool(c == default) != (not differs) or bool(default == c) != (not differs):
+                    pr.append("__eq__: Config(%s=%s) == Config() is %s although the attributes %s" % (
+                        name, rec["value"], c == default, "differ" if differs else "are the same"))
+                if not (c == c) or (c != c):
+                    pr.append("__eq__: not reflexive")
+                k = c.copy()
+                if cfg_attrs(k) != a:
+                    pr.append("copy: attributes differ")
+                if not (k == c):
+                    pr.append("__eq__: a copy compares unequal")
+                code = c._as_code()
+                c2 = eval(code, {"pq": pq, "np": np})
+                if cfg_attrs(c2) != a:
+                    pr.append("_as_code: %s rebuilds different attributes" % code)
+                if repr(c) != code[3:]:
+                    pr.append("__repr__ is not _as_code()[3:]")
+                for simname in ("PureFockSimulator", "GaussianSimulator", "PassiveSimulator"):
+                    for d in (2, None):
+                        sim = getattr(pq, simname)(d=d, config=c)
+                        want = sim_attrs(sim)
+                        scode = sim._as_code()
+                        s2 = eval(scode, {"pq": pq, "np": np})
+                        if sim_attrs(s2) != want:
+                            pr.append("Simulator._as_code: %s rebuilds a different simulator" % scode.replace("\n", " "))
+                        with pq.Program() as prog:
+                            pq.Q(0) | pq.Phaseshifter(phi=0.5)
+                        full = pq.as_code(prog, sim, shots=3)
+                        body, last = strip_execute(full)
+                        ns = {}
+                        exec(compile(body, "<as_code>", "exec"), ns)
+                        if sim_attrs(ns["simulator"]) != want:
+                            pr.append("pq.as_code + exec: %s rebuilds a different simulator" % scode.replace("\n", " "))
+            except Exception as e:
+                pr.append("exception " + err_kind(e))
+            rec["problems"] = sorted(set(pr))
+            out.append(rec)
+    return out
+
+
+def run_cfgeq(case):
+    try:
+        a = pq.Config(**{k: cfg_value(k, v) for k, v in case["a"]})
+        b = pq.Config(**{k: cfg_value(k, v) for k, v in case["b"]})
+        return {"eq": bool(a == b), "eq_rev": bool(b == a), "ne": bool(a != b),
+                "attrs_equal": cfg_attrs(a) == cfg_attrs(b)}
+    except Exception as e:
+        return {"error": err_kind(e)}
+
+
 def run_config(case):
     kw = {k: cfg_value(k, v) for k, v in case["kwargs"]}
     res = {}
@@ -464,7 +579,10 @@ def run_config(case):
             emitted.append([KW_ORDER.index(k.arg), e])
         res["emitted"] = emitted
         c2 = eval(code, {"pq": pq, "np": np})
-        res["equal"] = bool(c2 == c) and bool(c == c2)
+        res["equal"] = cfg_attrs(c2) == cfg_attrs(c)   # attribute by attribute, not ==
+        res["eq"] = bool(c2 == c) and bool(c == c2)
+        k = c.copy()
+        res["copy_equal"] = cfg_attrs(k) == cfg_attrs(c) and k.rng is c.rng
         res["code_again"] = c2._as_code() == code
         res["explicit"] = [c._cutoff_was_explicit, c2._cutoff_was_explicit]
         res["orig_seed"] = [c._original_seed_sequence, c2._original_seed_sequence]
@@ -472,10 +590,10 @@ def run_config(case):
         sim = pq.PureFockSimulator(d=case["d"], config=c)
         scode = sim._as_code()
         s2 = eval(scode, {"pq": pq, "np": np})
-        res["sim_equal"] = bool(s2.d == sim.d and s2.config == sim.config and type(s2) is type(sim))
+        res["sim_equal"] = sim_attrs(s2) == sim_attrs(sim)
         res["sim_has_config"] = "config=" in scode
         res["sim_d"] = s2.d
-        res["is_default"] = bool(c == pq.Config())
+        res["is_default"] = cfg_attrs(c) == cfg_attrs(pq.Config())
     except Exception as e:
         res["error"] = err_kind(e)
     return res
@@ -512,6 +630,11 @@ def main():
         out["rt"] = [run_rt(c) for c in req["rt"]]
     if "config" in req:
         out["config"] = [run_config(c) for c in req["config"]]
+    if "cfgeq" in req:
+        out["cfgeq"] = [run_cfgeq(c) for c in req["cfgeq"]]
+    if req.get("cfg_sweep"):
+        out["cfg_sweep"] = run_config_sweep()
+    out["piquasso_file"] = pq.__file__
     print(json.dumps(out))
 
 
